@@ -115,6 +115,9 @@ public:
   }
 
   sector_count_type last_sector() const;
+  // One past the last sector the file occupies.  A zero-length file
+  // occupies no sectors, so for it this is just start_sector().
+  sector_count_type end_sector() const;
 
   std::pair<const byte*, const byte*> file_body(int slot) const;
   bool visit_file_body_piecewise(DataAccess& media,
